@@ -275,6 +275,12 @@ fn format_replay(cases_path: &str, out_path: &str) {
                 return Err(("harness".to_string(), format!("stored entries differ from the case: {}", stored)));
             }
             let bytes = a.serialize().map_err(|x| ("serialize".to_string(), x.to_string()))?;
+            // a parse result must depend on the image alone: damaged copies first, then the real image, same thread
+            for cut in [bytes.len().saturating_sub(1), bytes.len().saturating_sub(2), bytes.len() / 2 + 9] {
+                if cut < bytes.len() {
+                    let _ = catch(|| TextArchive::from_bytes(&bytes[..cut], f, e).map(|_| ()));
+                }
+            }
             let b = TextArchive::from_bytes(&bytes, f, e).map_err(|x| ("parse".to_string(), x.to_string()))?;
             let got = text_value(&b, fmt);
             // the other public parse path must agree
